@@ -8,8 +8,14 @@ Open Scope N_scope.
 (* observed TableDocument fields *)
 Record odoc := mkD { d_start : bytes; d_end : bytes; d_esize : N; d_size : N; d_sseq : N; d_eseq : N }.
 
-(* one observed table: document, full scans (fresh / re-opened from the document; None = error), raw file bytes (deep only) *)
-Record otable := mkOT { ot_doc : odoc; ot_scan : option (list entry); ot_rscan : option (list entry); ot_bytes : bytes }.
+(* one observed table: document, full scans (fresh / re-opened from the document; None = error), checksum of the raw
+   file bytes (0 = not captured; terms with the raw bytes themselves are too slow to load) *)
+Record otable := mkOT { ot_doc : odoc; ot_scan : option (list entry); ot_rscan : option (list entry); ot_cks : N }.
+
+(* a 60-bit shift/xor checksum (no multiplication: cheap under vm_compute), same arithmetic as the engine's cksum *)
+Definition cksum (b : bytes) : N :=
+  let m := N.ones 60 in
+  fold_left (fun a x => N.land (N.lxor (N.lxor (N.shiftl a 7) (N.shiftr a 3)) (a + x + 1)) m) b 7 + 1.
 
 (* a point lookup on table [lk_t]: fresh and re-opened results *)
 Record olookup := mkL { lk_t : N; lk_key : bytes; lk_fresh : get_res; lk_reopen : get_res }.
@@ -113,12 +119,13 @@ Definition check_lookup_model (mts : list table) (l : olookup) : list N :=
   end.
 
 Definition doc_matches (deep : bool) (t : table) (d : odoc) : bool :=
+  (* the sequence-number fields of the document belong to other properties (C08) and are not compared *)
   bytes_eqb (t_start t) (d_start d) && bytes_eqb (t_end t) (d_end d) && (t_esize t =? d_esize d) &&
-  (t_sseq t =? d_sseq d) && (t_eseq t =? d_eseq d) && (negb deep || (t_size t =? d_size d)).
+  (negb deep || (t_size t =? d_size d)).
 
 (* a table without running the bloom filter and the serialiser of the meta blocks (cheap; used when not deep) *)
 Definition light_table (es : list entry) : table :=
-  mkT [] 0 (blen (ser_entries es)) (first_key es) (last_key es) (first_seq es) (last_seq es) None.
+  mkT [] 0 (blen (ser_entries es)) (first_key es) (last_key es) (first_seq es) (max_seq es) None.
 
 Definition opt_concat (l : list (option (list entry))) : option (list entry) :=
   fold_right (fun o acc => match o, acc with Some x, Some y => Some (x ++ y) | _, _ => None end) (Some []) l.
@@ -132,7 +139,7 @@ Definition check_tab (deep : bool) (es : list entry) (target : N) (ts : list ota
   flag (list_eqb Nat.eqb (map (@length _) chunks) (map (@length _) ochunks)) 1 ++
   flag (all2 (fun t ot => doc_matches deep t (ot_doc ot)) mts ts) 2 ++
   (if deep then
-     flag (all2 (fun t ot => match ot_bytes ot with [] => true | b => bytes_eqb (t_file t) b end) mts ts) 3 ++
+     flag (all2 (fun t ot => (ot_cks ot =? 0) || (cksum (t_file t) =? ot_cks ot)) mts ts) 3 ++
      flat_map (check_lookup_model mts) lookups ++
      flag (forallb (fun b => let bf := bloom_of es in
                              Bool.eqb (bl_has b) (bf_might_have bf (bl_key b))
